@@ -156,6 +156,7 @@ class Engine(object):
         # label ends the exploration of the unit at once (fail fast)
         self.known = set(known)
         self.stopped_early = False
+        self.replay_checks = True
         self.path_timeout_s = path_timeout_s
         self.concrete_timeout_s = concrete_timeout_s
         self.timeout_ms = timeout_ms
@@ -263,6 +264,11 @@ class Engine(object):
         self.choices = []        # choose() outcomes only
         self.solver = z3.Solver()
         self.solver.set("timeout", self.timeout_ms)
+        # Always use z3's incremental core: a solver whose first check()
+        # comes after all assertions (a path reached by prefix replay) would
+        # otherwise run a different, one-shot strategy and behave (and time
+        # out) differently from the same path met during exploration.
+        self.solver.push()
         self.model = None        # a model of the current path condition
         self.cache = {}          # simplified condition id -> bool
         self.raw_cache = {}      # unsimplified condition id -> bool
@@ -353,6 +359,7 @@ class Engine(object):
             self.trace.append(d)
             if i == len(self.prefix) - 1:
                 self.nforks = self.prefix_forks
+                self.warm = True
             return d
         alts = options()
         if not alts:
@@ -427,6 +434,10 @@ class Engine(object):
         self.cache[key] = (cond, res)
         self.raw_cache[raw_cond.get_id()] = (raw_cond, res)
         self._add(cond if res else ncond)
+        if self.replay_checks and len(self.trace) <= len(self.prefix):
+            # keep the solver's incremental state as it was when this path
+            # was first met (one cheap check per replayed decision)
+            self._check()
         return res
 
     def choose(self, n, label=None):
